@@ -130,12 +130,24 @@ func (vt *Model) csi(csi string, params [][]int) {
 	}
 }
 
+// maxParam is the largest value of a numeric parameter. Larger values (and
+// values which overflowed while being parsed) are limited to it, as xterm does,
+// so that arithmetic on parameters can't overflow
+const maxParam = 65535
+
+func clampParam(p int) int {
+	if p < 0 || p > maxParam {
+		return maxParam
+	}
+	return p
+}
+
 // Returns a single parameter from a slice of parameters, or 0 if the slice is
 // empty
 func ps(params [][]int) int {
 	var ps int
 	if len(params) > 0 {
-		ps = params[0][0]
+		ps = clampParam(params[0][0])
 	}
 	return ps
 }
@@ -277,17 +289,24 @@ func (vt *Model) cup(pm [][]int) {
 		vt.cursor.row = 0
 		vt.cursor.col = 0
 	case 1:
-		vt.cursor.row = row(pm[0][0] - 1)
+		vt.cursor.row = row(clampParam(pm[0][0]) - 1)
 		vt.cursor.col = 0
 	case 2:
-		vt.cursor.row = row(pm[0][0] - 1)
-		vt.cursor.col = column(pm[1][0] - 1)
+		vt.cursor.row = row(clampParam(pm[0][0]) - 1)
+		vt.cursor.col = column(clampParam(pm[1][0]) - 1)
 	}
 	if vt.cursor.col > column(vt.width()-1) {
 		vt.cursor.col = column(vt.width() - 1)
 	}
 	if vt.cursor.row > row(vt.height()-1) {
 		vt.cursor.row = row(vt.height() - 1)
+	}
+	// A parameter of 0 means the default, 1
+	if vt.cursor.col < 0 {
+		vt.cursor.col = 0
+	}
+	if vt.cursor.row < 0 {
+		vt.cursor.row = 0
 	}
 }
 
@@ -638,11 +657,18 @@ func (vt *Model) decstbm(pm [][]int) {
 		top = 0
 		bot = row(vt.height()) - 1
 	case 1:
-		top = row(pm[0][0] - 1)
+		top = row(clampParam(pm[0][0]) - 1)
 		bot = row(vt.height()) - 1
 	case 2:
-		top = row(pm[0][0] - 1)
-		bot = row(pm[1][0] - 1)
+		top = row(clampParam(pm[0][0]) - 1)
+		bot = row(clampParam(pm[1][0]) - 1)
+	}
+	// A parameter of 0 means the default: the first and the last line
+	if top < 0 {
+		top = 0
+	}
+	if bot < 0 || bot > row(vt.height())-1 {
+		bot = row(vt.height()) - 1
 	}
 	if top >= bot {
 		return
